@@ -81,7 +81,9 @@ func (w *World) credentialFor(o *Obs, pid string, c *c01Oracle) (string, bool) {
 	case "oauth2_callback":
 		if o.CodeUnused && st.str("error") == "" {
 			u := w.idpUser(st)
-			if row := o.RowsAfter[pid]; row != nil && row.OAuth2Provider == u.Provider && row.OAuth2UID == u.UID {
+			// the session must name exactly the pair the provider reported
+			// (documented identifier: oauth2;;<provider>;;<uid>, uid verbatim)
+			if row := o.RowsAfter[pid]; row != nil && row.OAuth2Provider == u.Provider && row.OAuth2UID == u.UID && pid == "oauth2;;"+u.Provider+";;"+u.UID {
 				if p := o.presented("state"); p != nil && p.Value != "" && p.Value == o.SessBefore["oauth2_state"] {
 					return "oauth2", true
 				}
